@@ -199,7 +199,10 @@ def quantified_shapes():
            ("forall", [("a", BOOL), ("b", BOOL)], ("Or", a, b, c)),
            ("Not", ("And", ("exists", qa, a), ("forall", qa, ("Or", a, b)))),
            ("And", ("forall", qa, ("Or", a, b)), ("forall", qa, ("Or", a, c)), ("exists", qa, ("And", a, c))),
-           ("forall", qa, ("And", b, c)), ("exists", qa, ("exists", qb, ("And", a, b, c)))]
+           ("forall", qa, ("And", b, c)), ("exists", qa, ("exists", qb, ("And", a, b, c))),
+           # the body of a quantifier is also used outside it (shared node)
+           ("And", ("Not", ("Or", a, b)), ("exists", qa, ("Or", a, b))), ("Iff", ("forall", qa, ("Or", a, b)), ("Or", a, b)),
+           ("Implies", ("Or", a, b), ("forall", qa, ("Or", a, b))), ("Or", ("exists", qa, ("And", a, c)), ("Not", ("And", a, c)), ("forall", qb, ("And", a, c)))]
     return [Shape(t) for t in out]
 
 
